@@ -109,7 +109,20 @@ def decorate(rng, text):
             d, p = l.split(' ')
             l = d + rng.choice(['', '=2020/%02d/%02d' % (rng.randrange(1, 13), rng.randrange(1, 29))]) + rng.choice([' ', ' * ', ' ! ']) + rng.choice(['', '(c%d) ' % rng.randrange(99)]) + p
         out.append(l)
-    return '\n'.join(out)
+    text = '\n'.join(out)
+    # a transaction repeated under the same `; UUID:` tag (ledger keeps one copy if the postings are equivalent), the copy's
+    # postings in another order
+    blocks = [b for b in text.split('\n\n') if re.match(r'^\d{4}/', b) and b.count('\n') >= 2]
+    if blocks and rng.random() < 0.5:
+        b = rng.choice(blocks)
+        ls = b.split('\n')
+        tag = '    ; UUID: u%d' % rng.randrange(10 ** 6)
+        orig = '\n'.join([ls[0], tag] + ls[1:])
+        posts = [l for l in ls[1:] if l.strip() and not l.strip().startswith(';')]
+        if rng.random() < 0.7:
+            posts = posts[::-1]
+        text = text.replace(b, orig, 1) + '\n\n' + '\n'.join([ls[0], tag] + posts) + '\n'
+    return text
 
 
 def mutate(rng, text):
